@@ -344,12 +344,15 @@ func genOutcome(r *mon.Rng, fail bool, caps *scriptCaps) outcome {
 		o.Body = bEmpty
 		return o
 	}
-	if r.Chance(1, 5) {
+	// (many cases make fewer requests than their script is long: a big-body case asks for big bodies early)
+	if caps.big < caps.maxBig && r.Bool() {
+		o.Pad = r.PickInt(padSizes[6:])
+	} else if r.Chance(1, 5) {
 		o.Pad = r.PickInt(padSizes)
-		if o.Pad >= 1<<20 {
-			if caps.big++; caps.big > caps.maxBig {
-				o.Pad = []int{5000, 70000}[o.Pad&1]
-			}
+	}
+	if o.Pad >= 1<<20 {
+		if caps.big++; caps.big > caps.maxBig {
+			o.Pad = []int{5000, 70000}[o.Pad&1]
 		}
 	}
 	o.Frame = framing(r.PickInt([]int{int(fLength), int(fLength), int(fLength), int(fChunked), int(fChunked), int(fEOF)}))
@@ -1489,6 +1492,13 @@ shutwait:
 					st.add("posts_non2xx_body_1MiB_or_more_written_in_full", 1)
 				}
 			}
+			if r.Out.Pad > 1<<20 && r.Out.Frame == fLength {
+				if r.Out.ack() {
+					st.add("posts_2xx_content_length_over_1MiB", 1)
+				} else {
+					st.add("posts_non2xx_content_length_over_1MiB", 1)
+				}
+			}
 			if r.Wrote {
 				st.add("posts_response_written_as_scripted", 1)
 			}
@@ -1713,6 +1723,7 @@ func main() {
 		res.Floor("posts_non2xx_body_incomplete", m["posts_non2xx_body_incomplete"], n/2)
 		res.Floor("non2xx_body_incomplete_later_acknowledged", m["non2xx_body_incomplete_later_acknowledged"], n/4)
 		res.Floor("posts_2xx_body_incomplete", m["posts_2xx_body_incomplete"], n/4)
+		res.Floor("posts_non2xx_content_length_over_1MiB", m["posts_non2xx_content_length_over_1MiB"], n/60)
 		res.Floor("shutdown_calls", m["shutdown_calls"], n*9/10)
 		res.Floor("cases_shutdown_with_unacked_pending", m["cases_shutdown_with_unacked_pending"], n/5)
 		res.Floor("cases_with_counted_drops", m["cases_with_counted_drops"], n/20)
